@@ -38,7 +38,9 @@ REPO = os.environ.get('VERIF_REPO', '/repo')
 GENISO = os.path.join(REPO, 'tools', 'pycdlib-genisoimage')
 EXTRACT = os.path.join(REPO, 'tools', 'pycdlib-extract-files')
 NPROC = 16
-QUICK_CAP = 3600          # cases run in the quick tier (deterministic subsample by seed above this)
+QUICK_CAP = 3000          # cases run in the quick tier (deterministic subsample by seed above this)
+THOROUGH_CAP = 20000      # same for the thorough tier
+SUBPROC_SAMPLE = 320      # thorough: cases also run through the real command lines
 VIEWS = ('iso', 'rr', 'joliet', 'udf')
 PATH_TYPE = {'iso': 'iso', 'rr': 'rockridge', 'joliet': 'joliet', 'udf': 'udf'}
 
@@ -102,11 +104,16 @@ def gen_design(tier):
     if stats.get('exit') != 0 or not stats.get('completed'):
         raise tlc.TlcError('MC_tools design: TLC did not complete\n' + out[-3000:])
     des = [v for t, v in tlc.tagged_lines(out) if t == 'DESIGN']
+    model = [v for t, v in tlc.tagged_lines(out) if t == 'MODEL']
     nviol = out.count('Invariant DistinctLegalInv is violated')
     if nviol != len(des):
         raise tlc.TlcError('MC_tools design: %d invariant violations but %d DESIGN lines' % (nviol, len(des)))
     stats['maxsib'] = maxsib
-    return des, stats, nviol
+    for d in des:
+        d['cex'] = True
+    for d in model:
+        d['cex'] = False
+    return des + model, stats, nviol
 
 
 # ---- running the tools -----------------------------------------------------------------------
@@ -147,15 +154,21 @@ def run_tool_subproc(path, argv, cwd):
     env = dict(os.environ)
     env['PYTHONPATH'] = REPO
     env['PYTHONHASHSEED'] = '0'
+    env['PYTHONDONTWRITEBYTECODE'] = '1'
     p = subprocess.run([sys.executable, path] + list(argv), cwd=cwd, env=env, stdout=subprocess.PIPE,
                        stderr=subprocess.STDOUT, timeout=300, check=False)
     out = p.stdout.decode('utf-8', 'replace')
     if p.returncode == 0:
         return 'ok', '', out[-600:]
-    last = [l for l in out.strip().split('\n') if l.strip()][-1:] or ['']
-    if 'Traceback (most recent call last)' in out:
-        cls = last[0].split(':')[0].strip().split('.')[-1]
-        return 'exc:' + cls, last[0][:300], out[-600:]
+    lines = out.split('\n')
+    heads = [n for n, l in enumerate(lines) if l.startswith('Traceback (most recent call last)')]
+    if heads:
+        # the exception line is the first unindented line after the frames of the last traceback
+        # (Python >= 3.11 may print notes after it)
+        for l in lines[heads[-1] + 1:]:
+            if l and not l[0].isspace():
+                cls = l.split(':')[0].strip().split('.')[-1]
+                return 'exc:' + cls, l[:300], out[-600:]
     return 'exit:%d' % p.returncode, '', out[-600:]
 
 
@@ -378,10 +391,17 @@ def run_cases(cases, mode='inproc', nproc=NPROC):
         return []
     chunks = [cases[k::nproc * 4] for k in range(nproc * 4)]
     chunks = [c for c in chunks if c]
+    if len(cases) > 4000:      # long runs: smaller chunks, a progress line every ~10 %
+        chunks = [cases[k:k + 40] for k in range(0, len(cases), 40)]
     ctxm = multiprocessing.get_context('fork')
+    res = []
+    t0 = det.real_time()
+    step = max(1, len(chunks) // 10)
     with ctxm.Pool(min(nproc, len(chunks))) as pool:
-        parts = pool.map(_run_chunk, [(c, mode) for c in chunks])
-    res = [x for part in parts for x in part]
+        for n, part in enumerate(pool.imap_unordered(_run_chunk, [(c, mode) for c in chunks]), 1):
+            res += part
+            if len(cases) > 4000 and n % step == 0:
+                print('  %d / %d cases run (%s, %.0fs)' % (len(res), len(cases), mode, det.real_time() - t0), flush=True)
     res.sort(key=lambda r: r[0]['id'])
     return res
 
@@ -398,7 +418,8 @@ def numbering_items(design):
             r = build_iso_path(lvl, text(nm), d['level'], d['isdir'])
             idents.append([] if r is None else cps(r[1:] if r.startswith('/') else r))
         items.append({'kind': 'numbering', 'id': 'n%05d' % n, 'level': d['level'], 'isdir': d['isdir'],
-                      'names': d['names'], 'idents': idents, 'model_idents': d['idents'], 'spans': d['spans']})
+                      'names': d['names'], 'idents': idents, 'model_idents': d['idents'], 'spans': d['spans'],
+                      'cex': d['cex']})
     return items
 
 
@@ -441,7 +462,7 @@ def pretty_views(item):
 def judge_items(items):
     slim = []
     for it in items:
-        slim.append({k: v for k, v in it.items() if k not in ('model_idents', 'spans')})
+        slim.append({k: v for k, v in it.items() if k not in ('model_idents', 'spans', 'cex')})
     fails, stats = judge.judge_sharded('Judge_Tools', slim, shards=8)
     return fails, stats
 
@@ -520,8 +541,7 @@ def run(ctx):
     cases, cstats = gen_cases(tier)
     total = len(cases)
     print('MC_tools cases: %d cases from %d trees (%.1fs)' % (total, cstats['distinct'], det.real_time() - t0), flush=True)
-    if tier == 'quick':
-        cases = subsample(cases, QUICK_CAP, ctx.seed)
+    cases = subsample(cases, QUICK_CAP if tier == 'quick' else THOROUGH_CAP, ctx.seed)
     cases_by_id = {c['id']: c for c in cases}
     t0 = det.real_time()
     results = run_cases(cases, 'inproc')
@@ -529,7 +549,7 @@ def run(ctx):
     sub_results = []
     if tier == 'thorough':
         rnd = random.Random(ctx.seed + 1)
-        pick = sorted(rnd.sample(cases, min(600, len(cases))), key=lambda c: c['id'])
+        pick = sorted(rnd.sample(cases, min(SUBPROC_SAMPLE, len(cases))), key=lambda c: c['id'])
         t0 = det.real_time()
         sub_results = run_cases(pick, 'subproc')
         print('ran %d cases as subprocesses (%.1fs)' % (len(sub_results), det.real_time() - t0), flush=True)
@@ -554,10 +574,20 @@ def run(ctx):
         ctx.note('cases_run_as_subprocess', len(sub_results))
     # design-level counterexamples replayed on the real build_iso_path
     stale = 0
+    differs = 0
     for it in nitems:
         cl = fails.get(it['id'], [])
         if 'NumberingAsModel' in cl:
+            differs += 1
             ctx.note('numbering_model_differs_from_code')
+        if not it['cex']:
+            # a sibling sequence the model finds in order: the code must, too
+            if 'NumberingDistinctLegal' in cl:
+                ctx.violation({'clause': 'NumberingDistinctLegal', 'level': it['level'], 'isdir': it['isdir'],
+                               'prefix_spans_separator': it['spans'], 'model_predicts': 'legal'},
+                              {'names': [text(n) for n in it['names']], 'idents': [text(n) for n in it['idents']]},
+                              {'numbering': it})
+            continue
         if 'NumberingDistinctLegal' in cl:
             sig = {'clause': 'NumberingDistinctLegal', 'level': it['level'], 'isdir': it['isdir'],
                    'prefix_spans_separator': it['spans']}
@@ -568,13 +598,16 @@ def run(ctx):
             stale += 1
     if stale:
         ctx.note('design_counterexamples_not_reproduced_by_code', stale)
+    if differs:
+        print('NOTE: Tools!MangleWithNumbering and build_iso_path disagree on %d of %d sibling sequences '
+              '(the transcription in spec/Tools.tla no longer describes the code)' % (differs, len(nitems)), flush=True)
     trees = len({json.dumps(c['tree'], sort_keys=True) for c in cases})
     optv = len({json.dumps(c['opts'], sort_keys=True) for c in cases})
     ctx.coverage.update({
         'states': cstats['distinct'] + dstats['distinct'],
         'transitions': cstats['generated'] + dstats['generated'],
         'traces_validated_against_impl': len(results) + len(sub_results) + len(nitems),
-        'exhaustive': tier == 'thorough' or total == len(cases),
+        'exhaustive': total == len(cases),
         'rule': 'TLC enumerates MC_tools (focus sets of a colliding name pool x contexts x option vectors; '
                 'design mode: every sibling sequence up to MaxSib x level x kind); each case is built by '
                 'pycdlib-genisoimage and extracted per view by pycdlib-extract-files; Judge_Tools evaluates the clauses',
@@ -582,7 +615,7 @@ def run(ctx):
                      'cases_run': len(cases), 'distinct_trees_run': trees, 'distinct_option_vectors_run': optv,
                      'tlc_wall_s': cstats['wall_s']},
         'mc_design': {'states': dstats['distinct'], 'generated': dstats['generated'], 'max_siblings': dstats['maxsib'],
-                      'DistinctLegalInv_counterexamples': nviol, 'replayed_on_build_iso_path': len(nitems),
+                      'DistinctLegalInv_counterexamples': nviol, 'sequences_replayed_on_build_iso_path': len(nitems),
                       'tlc_wall_s': dstats['wall_s']},
         'judge': {'observations': len(items), 'with_failing_clauses': len(fails),
                   'tlc_states': sum(s.get('distinct', 0) for s in jstats)},
